@@ -124,6 +124,8 @@ def make_case(check, verif_seed, idx, tier):
     seed = run_seed(verif_seed, check.id, idx)
     rng = random.Random(seed)
     case = check.gen(rng, tier)
+    if not check.valid(case):
+        raise AssertionError('generator produced a case outside the preconditions: %s' % json.dumps(case)[:3000])
     case.setdefault('v', 1)
     case['property'] = check.id
     case['seed'] = seed
